@@ -15,6 +15,8 @@ package code
 //@   ensures [C12] only_success_consumes: pcDeletes != old(pcDeletes) ==> err == nil
 //@   assert at call store.PersistentCacheInterface.Delete [C12] same_entry: $1 == pcLastGet
 //@   assert at call store.PersistentCacheInterface.Delete [C12] within_limit: count < ca.maxRetries
+// (the entry is consumed - the code accepted - only for the stored code itself, not a prefix or an extension of it)
+//@   assert at call store.PersistentCacheInterface.Delete [C12] exact_code: len(parts) == 3 && parts[0] == code
 //@   assert at call store.PersistentCacheInterface.Upsert [C12] same_entry: $1 == pcLastGet && !$3
 //@   assert at call store.PersistentCacheInterface.Upsert [C12] only_below_limit: count < ca.maxRetries
 // (a wrong guess only raises the attempt counter: the entry keeps the stored code and the stored user)
